@@ -84,6 +84,8 @@ def run(ctx, run):
     _vprintf(ctx, run, P.need("vbi_export_vprintf", EXPORT))
     _print_region(ctx, run)
     _pixfmt(ctx, run)
+    _pixfmt_sets(ctx, run)
+    _targets_start_clean(ctx, run)
     _mem_copy_back(ctx, run, P.need("vbi_export_mem", EXPORT))
     _pixel_size_terms(ctx, run)
     _mem_room_exact(ctx, run)
@@ -318,6 +320,76 @@ def _pixfmt(ctx, run):
         else:
             run.holds("RF-DOM", key, "with fmt different from both supported formats no drawing call is reachable (%d draw site(s))"
                       % len(draws), "%s:%d" % (f.file, f.line))
+
+
+def _pixfmt_sets(ctx, run):
+    """The set of pixel formats for which a region renderer draws, computed by value partitioning: the function is
+    analysed once per enumerator of vbi_pixfmt (the parameter fixed to that value) and a format is *admitted* when a
+    drawing call stays reachable.  Both renderers share draw_char/draw_blank, which exist for one 32 bit layout and
+    for PAL8 only: the two admitted sets have to agree, and every admitted format needs a canvas_type of its own
+    pixel size."""
+    from .. import absint
+    P = ctx.prog
+    en = None
+    for name_, e in P.enums.items():
+        if any(k.startswith("VBI_PIXFMT_") for k in e["enumerators"]):
+            en = e["enumerators"]
+    if not en:
+        raise AnalysisBroken("anchor vanished: enum vbi_pixfmt")
+    sets = {}
+    for name in ("vbi_draw_vt_page_region", "vbi_draw_cc_page_region"):
+        f = P.need(name, "src/exp-gfx.c")
+        run.touch(f)
+        pfmt = f.params[1]["name"]
+        draws = [i for b, i in flow.all_events(f) if f.exprs[i]["k"] == "call" and f.exprs[i].get("callee") in ("draw_char", "draw_drcs", "draw_blank")]
+        adm = set()
+        for k, v in en.items():
+            an = absint.Analysis(ctx, f, {pfmt: (v, v)}).run()
+            if any(an.state_before(i) is not None for i in draws):
+                adm.add(k)
+        sets[name] = adm
+    a, b = sets["vbi_draw_vt_page_region"], sets["vbi_draw_cc_page_region"]
+    key = "RF-TAB:region-renderers:admitted-pixel-formats"
+    if not a or not b:
+        raise AnalysisBroken("a region renderer admits no pixel format at all (value partitioning failed)")
+    if a == b:
+        run.holds("RF-TAB", key, "both region renderers draw for exactly %s (of %d pixel formats)" % (sorted(a), len(en)), "src/exp-gfx.c")
+    else:
+        run.violation("RF-TAB", key, "vbi_draw_vt_page_region draws for %s, vbi_draw_cc_page_region for %s: the shared character "
+                      "renderers exist for one layout per pixel size, so a format only one of them admits (%s) is drawn with another "
+                      "format's pixel values instead of leaving the canvas untouched" % (sorted(a), sorted(b), sorted(a ^ b)),
+                      "src/exp-gfx.c", witness={"vt": sorted(a), "cc": sorted(b)})
+
+
+def _targets_start_clean(ctx, run):
+    """Every export entry point (mem, alloc, stdio, file) hands a context to the module's export function whose
+    write_error flag it has cleared itself: the flag is sticky in the write layer, so an entry point that leaves
+    it alone fails after any earlier failed export on the same context while the other targets succeed."""
+    P = ctx.prog
+    n = 0
+    for f in P.funcs:
+        if f.file != EXPORT or f.cfg_failed:
+            continue
+        calls = [(b, i) for b, i in flow.all_events(f) if f.exprs[i]["k"] == "call" and not f.exprs[i].get("callee")
+                 and "fn" in f.exprs[i] and any(f.exprs[m]["k"] == "mem" and f.exprs[m]["member"] == "export"
+                                                for m in ex.walk(f, f.exprs[i]["fn"]))]
+        for b, i in calls:
+            n += 1
+            run.touch(f)
+            ok = False
+            for bb, j in flow.all_events(f):
+                if atoms.store_to_field("vbi_export.write_error", 0)(f, j):
+                    pj, pi = flow.elem_pos(f)[j], flow.elem_pos(f)[i]
+                    if (bb == b and pj[1] < pi[1]) or (bb != b and flow.dominates(f, bb, b)):
+                        ok = True
+            key = "RF-INIT:%s:write_error-cleared" % f.name
+            if ok:
+                run.holds("RF-INIT", key, "e->write_error = FALSE dominates the call of the module's export function", ex.loc(f, i))
+            else:
+                run.violation("RF-INIT", key, "%s() calls the module's export function without clearing e->write_error first: after "
+                              "a failed export on the same context this target fails at its first write although the page exports "
+                              "fine to the other targets" % f.name, ex.loc(f, i), witness={"function": f.name})
+    run.floor("export entry points calling the module's export function", n, 4)
 
 
 def _mem_copy_back(ctx, run, f):
